@@ -243,14 +243,11 @@ reg("C09",
     H("c09", "c09_ext_sni_two_names", cfg="serialize", timeout=900, mem=12, bounds="SNI extension with two names (1 and 2 bytes), name types and bytes symbolic", funcs=["gen_tls_extension", "gen_tls_ext_sni"]),
     H("c09", "c09_plaintext_record_empty_stale_len", cfg="serialize", timeout=600, bounds="empty record, record type / version / stale hdr.len symbolic", funcs=["gen_tls_plaintext"]),
     H("c09", "c09_reserialization_normal_form", cfg="serialize", timeout=600, bounds="ServerHello, ext None vs Some(empty), all scalar fields symbolic", funcs=["gen_tls_serverhello"]),
-    H("c09", "c09_plaintext_record_of_messages", cfg="serialize", tier="thorough", timeout=3000, mem=24, bounds="concrete shape, symbolic field contents (see harness)", funcs=["plaintext_record_of_messages"]),
-    H("c09", "c09_plaintext_record_change_cipher_spec", cfg="serialize", tier="thorough", timeout=3000, mem=24, bounds="concrete shape, symbolic field contents (see harness)", funcs=["plaintext_record_change_cipher_spec"]),
     H("c09", "c09_extension_list_round_trip", cfg="serialize", timeout=900, mem=12, bounds="concrete shape, symbolic field contents (see harness)", funcs=["extension_list_round_trip"]),
     H("c09", "c09_server_hello_nosid_noext", cfg="serialize", timeout=900, mem=12, bounds="concrete shape, symbolic field contents (see harness)", funcs=["server_hello_nosid_noext"]),
     H("c09", "c09_server_hello_sid2_ext2", cfg="serialize", timeout=900, mem=12, bounds="concrete shape, symbolic field contents (see harness)", funcs=["server_hello_sid2_ext2"]),
     H("c09", "c09_client_hello_min", cfg="serialize", timeout=900, mem=12, bounds="concrete shape, symbolic field contents (see harness)", funcs=["client_hello_min"]),
     H("c09", "c09_client_hello_c1", cfg="serialize", timeout=900, mem=16, bounds="ClientHello: no session id, 1 cipher, no compression, no extension block; contents symbolic", funcs=["gen_tls_clienthello"]),
-    H("c09", "c09_client_hello_sid1_c2_m1_ext2", cfg="serialize", tier="thorough", timeout=3000, mem=24, bounds="concrete shape, symbolic field contents (see harness)", funcs=["client_hello_sid1_c2_m1_ext2"]),
     H("c09", "c09_server_hello_draft18_noext", cfg="serialize", timeout=900, mem=12, bounds="concrete shape, symbolic field contents (see harness)", funcs=["server_hello_draft18_noext"]),
     H("c09", "c09_server_hello_draft18_ext2", cfg="serialize", timeout=900, mem=12, bounds="concrete shape, symbolic field contents (see harness)", funcs=["server_hello_draft18_ext2"]),
     H("c09", "c09_cke_unknown", cfg="serialize", timeout=900, mem=12, bounds="concrete shape, symbolic field contents (see harness)", funcs=["cke_unknown"]),
